@@ -104,9 +104,16 @@ def cmd_run(name, ids):
         sys.exit(2)
     rc, out = sh(f"git -C /repo apply {d}/patch.diff")
     if rc != 0:
-        print("patch does not apply to /repo:", out)
-        sys.exit(2)
+        # later fix commits moved the surrounding lines: retry with one line of context (same change, same place)
+        rc, out = sh(f"git -C /repo apply -C1 --recount {d}/patch.diff")
+        if rc != 0:
+            print("patch does not apply to /repo:", out)
+            m["apply_note"] = "patch no longer applies to /repo HEAD " + subprocess.check_output(["git", "-C", "/repo", "rev-parse", "--short", "HEAD"], text=True).strip()
+            save_meta(name, m)
+            sys.exit(2)
+        m["apply_note"] = "applied with reduced context (-C1) after later fix commits shifted the surrounding lines"
     results = m.setdefault("checks", {})
+    repo_head = subprocess.check_output(["git", "-C", "/repo", "rev-parse", "--short", "HEAD"], text=True).strip()
     try:
         for pid in ids:
             t0 = time.time()
@@ -114,7 +121,7 @@ def cmd_run(name, ids):
             viol = [l for l in out.splitlines() if l.startswith("VIOLATION")]
             detail = [l.strip()[:300] for l in out.splitlines() if l.strip().startswith("check=")][:3]
             results[pid] = {"exit": rc, "violation_lines": len(viol), "detected": rc == 1 and len(viol) > 0, "detail": detail, "wall_s": round(time.time() - t0, 1),
-                            "at_verif_commit": subprocess.check_output(["git", "-C", VERIF, "rev-parse", "--short", "HEAD"], text=True).strip()}
+                            "at_verif_commit": subprocess.check_output(["git", "-C", VERIF, "rev-parse", "--short", "HEAD"], text=True).strip(), "at_repo_commit": repo_head}
             print(name, pid, "DETECTED" if results[pid]["detected"] else f"missed (exit {rc})", detail[:1])
     finally:
         sh("git -C /repo checkout -- .")
